@@ -63,7 +63,7 @@ pub fn generate(ctx: &mut Ctx) {
         }
         bi += 1;
     }
-    let n = ctx.by_tier(600_000u64, 6_000_000u64) / ctx.nshards;
+    let n = ctx.by_tier(600_000u64, 24_000_000u64) / ctx.nshards;
     for i in 0..n {
         let mut rng = ctx.rng("valid", i);
         let mut o = gen::Opts::new(rng.chance(1, 2));
